@@ -84,9 +84,10 @@ def engine_spec(name):
         libs = []
     elif name == "sched":
         objs = [("ad%d" % k, "adapters.cpp", GXX_SCHED + ["-DVERIF_KIND=%d" % k]) for k in range(10)]
-        objs += [(n, n + ".cpp", GXX_SCHED) for n in ("box_common", "interpose", "sched")]
+        objs += [(n, n + ".cpp", GXX_SCHED) for n in ("box_common", "interpose")]
+        objs += [("sched", "sched.cpp", ["g++", "-std=gnu++17", "-O1", "-g", "-DCAPPUCCINO_VERIF_HOOKS", "-pthread"])]
         link = ["g++", "-fsanitize=address,undefined", "-pthread"]
-        libs = []
+        libs = ["-lrapidcheck"]
     else:
         raise SystemExit("unknown engine " + name)
     return inc, objs, link, libs
@@ -341,7 +342,7 @@ def minimize(binp, prop, mode, text, same, workdir, budget_s=120):
 # --------------------------------------------------------------------------------------------------
 def seq_check(prop, tier, seed, cfg):
     t0 = time.time()
-    binp = build("seq")
+    binp = build(cfg.get("engine_bin", "seq"))
     mode = cfg["mode"]
     tcfg = cfg[tier]
     work = os.path.join(BUILD_ROOT, "work", "%s-%s-%d" % (prop, tier, os.getpid()))
@@ -400,6 +401,7 @@ def seq_check(prop, tier, seed, cfg):
     def run_worker(job):
         w, (profile, wmode, scale), kinds, attempt = job
         env = dict(os.environ, **SAN_ENV)
+        env.update(tcfg.get("env", {}))
         env["RC_PARAMS"] = "seed=%d max_success=%d max_size=%d" % (base + w * 7919 + attempt * 104729, max(1, int(tcfg["cases"] * scale)), tcfg["max_size"])
         cmd = [binp, "gen", "--property", prop, "--mode", wmode, "--profile", profile, "--out", work, "--worker", str(w)]
         if kinds:
@@ -659,7 +661,7 @@ def cmd_replay(prop, path):
     cfg = PROPS[prop]
     eng = cfg.get("driver", "seq")
     if eng == "seq":
-        binp = build("seq")
+        binp = build(cfg.get("engine_bin", "seq"))
         text = open(path).read()
         mode = cfg["mode"]
         m = re.search(r"^# (?:property \S+ )?mode (\S+)", text, re.M)
